@@ -824,8 +824,11 @@ static ares_status_t process_answer(ares_channel_t      *channel,
   /* Parse the response */
   status = ares_dns_parse(abuf, alen, 0, &rdnsrec);
   if (status != ARES_SUCCESS) {
-    /* Malformations are never accepted */
-    status = ARES_EBADRESP;
+    /* Malformations are never accepted.  Running out of memory while parsing
+     * says nothing about the answer though, keep that status */
+    if (status != ARES_ENOMEM) {
+      status = ARES_EBADRESP;
+    }
     goto cleanup;
   }
 
